@@ -378,6 +378,25 @@ fn exec_inner<V: VirtualFileSystem>(v: &V, hs: &mut Handles, op: &Op) -> Outcome
             }
             r(b.exec(), |_| Val::Unit)
         },
+        Op::CopyBDeferred { s, d, calls, cwd } => {
+            let mut b = match v.copy_b(s, d) {
+                Ok(b) => b,
+                Err(e) => return Outcome::Err(err_kind(&e)),
+            };
+            for c in calls {
+                b = match c {
+                    CopyCall::ChmodAll(m) => b.chmod_all(*m),
+                    CopyCall::ChmodDirs(m) => b.chmod_dirs(*m),
+                    CopyCall::ChmodFiles(m) => b.chmod_files(*m),
+                    CopyCall::Follow(y) => b.follow(*y),
+                };
+            }
+            let moved = v.set_cwd(cwd).is_ok();
+            match b.exec() {
+                Ok(_) => Outcome::Ok(Val::Bool(moved)),
+                Err(e) => Outcome::Err(err_kind(&e)),
+            }
+        },
         Op::Cwd => r(v.cwd(), |x| Val::Path(ps(&x))),
         Op::Root => Outcome::Ok(Val::Path(ps(&v.root()))),
         Op::SetCwd { p } => r(v.set_cwd(p), |x| Val::Path(ps(&x))),
